@@ -997,4 +997,4 @@ def run(prog, rep, tier):
     check_decision_purity(prog, rep)
     check_weight_sizes(prog, rep)
     check_subset_frequencies(prog, rep, tier)
-    wire(prog, rep, "C05", 60, 330)
+    wire(prog, rep, "C05", 60, 330, 460)
